@@ -428,7 +428,7 @@ pub fn embed(r: &mut Rng, tm: &Tmpl, stats: &mut Vec<String>) -> String {
 // ------------------------------------------------------------------------------------------------
 
 /// fixed programs: the shapes of the departures found so far (run first on every check)
-const WITNESSES: [&str; 12] = [
+const WITNESSES: [&str; 13] = [
     "x = y\na = b\nb = a\n",
     "aandb = x\nx = a and b\n",
     "if a[f()] then\n  foo()\nelseif a[f()] then\n  bar()\nend\n",
@@ -441,6 +441,7 @@ const WITNESSES: [&str; 12] = [
     "if x then\n  function f()\n  end\n  f(1, 2)\nelse\n  function f(a, b)\n  end\nend\n",
     "for c = 1, 2 do\n  c \"str\"\n  function c()\n  end\nend\n",
     "if x then\n  return 1\nelse\n  return 1\nend\n",
+    "b = a\na = b\nb = a\na = b\n",
 ];
 
 pub fn run(args: &Args, out: &mut Out) {
